@@ -137,12 +137,15 @@ class Run:
         self.threads = []
         self.obsf = e.observer(rv)
         self.nform = 0
+        self.aborting = False
 
     # -- runs in the logical thread
     def loop(self, tid, depth):
         e = self.e
         q = self.q[tid]
         while True:
+            if self.aborting:      # sticky: an Abort swallowed by a failing exit path (pop raising) is raised again
+                raise Abort()
             cmd = q.get()
             op = cmd[0]
             if op == "abort":
@@ -332,6 +335,7 @@ class Run:
                                 break
             return rec, mismatch
         finally:
+            self.aborting = True
             for qq in list(self.q.values()):
                 qq.put(("abort",))
             hung = getattr(self, "hung", False)
